@@ -833,6 +833,9 @@ Definition all_ok (s : state) (ops : list sop) : bool :=
      | SDeliver t => match (deliver s t).2 with Ok _ => true | _ => false end
      | _ => sstep_ok s o end && go (sstep s o) r end) s ops.
 
+(* split conjunctions only: [split] on an equation would try [eq_refl] with the lazy machine *)
+Ltac vm_conj := repeat (match goal with |- _ ∧ _ => split end); vm_compute; reflexivity.
+
 Theorem C11_collision_refuted : ∃ g ops1 ops2,
   let s0 := init_chain g in let s1 := srun s0 ops1 in let s2 := srun s1 ops2 in
   length (gen_validators g) = 2%nat ∧
@@ -856,7 +859,7 @@ Proof.
   exists collision_genesis, collision_block1, collision_block23.
   cbv zeta. split; [reflexivity|]. split; [vm_compute; reflexivity|]. split.
   { intros [H _]. vm_compute in H. inversion H as [|x xs Hnin _]. apply Hnin. left. }
-  repeat split; vm_compute; reflexivity.
+  vm_conj.
 Qed.
 Print Assumptions C11_collision_refuted.
 
@@ -1922,6 +1925,140 @@ Proof.
 Qed.
 Print Assumptions refunded_entry_gone.
 
+(* ================================================================== 10b. (C11) a stake is never lost: bonded or unbonding *)
+Lemma unstake_result_no_loss D F a d hs s0 R st :
+  delegatee_ok a d → NoDup (s_hash <$> d_stakes d) → (∀ x, x ∈ d_stakes d → 0 ≤ s_power x) →
+  find_stake hs (d_stakes d) = Some s0 → st ∈ d_stakes d →
+  (∃ d', (unstake_result D F a d hs s0 R).1 !! a = Some d' ∧ st ∈ d_stakes d') ∨
+  (unstake_result D F a d hs s0 R).2 !! s_hash st = Some (with_refund R st).
+Proof.
+  intros Hok Hnd Hpos Hf Hst. destruct (find_stake_spec _ _ _ Hf) as [Hin0 Hh0].
+  pose proof (del_stake_ok a d hs Hok) as (_ & Ht1 & Hs1 & _).
+  assert (Hst1 : d_stakes (del_stake d hs) = remove_stake hs (d_stakes d)) by (unfold del_stake; rewrite Hf; reflexivity).
+  assert (Hnd1 : NoDup (s_hash <$> remove_stake hs (d_stakes d))).
+  { eapply sublist_NoDup'; [apply fmap_sublist, remove_stake_sublist | exact Hnd]. }
+  unfold unstake_result; cbv zeta; simpl.
+  destruct (decide (st = s0)) as [->|Hne].
+  - right. destruct (d_self (del_stake d hs) =? 0).
+    + rewrite freeze_all_keep; [apply lookup_insert|].
+      intros x Hx Heq. rewrite Hst1 in Hx. apply (remove_stake_hash_notin hs _ Hnd).
+      apply elem_of_list_fmap. exists x. split; [congruence | assumption].
+    + apply lookup_insert.
+  - assert (Hin1 : st ∈ remove_stake hs (d_stakes d)) by (eapply remove_stake_elem_ne; eassumption).
+    destruct (d_self (del_stake d hs) =? 0) eqn:Es.
+    + right. rewrite Hst1. apply freeze_all_new; assumption.
+    + apply Z.eqb_neq in Es. destruct (d_total (del_stake d hs) =? 0) eqn:Et.
+      * exfalso. apply Z.eqb_eq in Et. rewrite Hst1 in Ht1, Hs1.
+        assert (Hb : 0 ≤ sum_power_of a (remove_stake hs (d_stakes d)) ≤ sum_power (remove_stake hs (d_stakes d))).
+        { apply sum_power_of_bounds. intros x Hx. apply Hpos. eapply sublist_elem; [apply remove_stake_sublist | exact Hx]. }
+        lia.
+      * left. exists (del_stake d hs). split; [apply lookup_insert | rewrite Hst1; assumption].
+Qed.
+
+Theorem deliver_never_loses s t st :
+  hashes_unique (work s) → dels_ok (work s) → (∀ x, x ∈ bonded_stakes (work s) → 0 ≤ s_power x) →
+  st ∈ bonded_stakes (work s) →
+  st ∈ bonded_stakes (work (deliver s t).1) ∨
+  frozen (work (deliver s t).1) !! s_hash st
+    = Some (with_refund (b_height (bctx s) + g_lazyRewardBlocks (gparams s)) st).
+Proof.
+  intros Hu Hok Hpos Hst. apply hashes_unique_pt in Hu. destruct Hu as (U1 & _).
+  destruct (deliver s t) as [s' r] eqn:E. simpl.
+  apply elem_of_bonded in Hst as (a & d & Hd & Hst).
+  apply deliver_frame in E as (_ & _ & _ & _ & _ & [[HD _] | (s2 & l & l' & _ & Hg & Hh & [HD HF] & Hex & [HD' HF'])]).
+  { left. apply elem_of_bonded. exists a, d. rewrite HD. auto. }
+  assert (HR : release_height s2 = b_height (bctx s) + g_lazyRewardBlocks (gparams s)) by (unfold release_height; congruence).
+  apply stake_execute_inv in Hex as [(_ & d0 & Hd0 & HDl & _) | [(_ & d0 & hs & b & s0 & Hd0 & _ & Hf & _ & HDl & HFl) | (_ & _ & HDl & _)]].
+  - left. apply elem_of_bonded. rewrite HD', HDl. destruct (decide (a = t_to t)) as [->|Hne].
+    + eexists _, _. split; [apply lookup_insert|]. simpl. apply elem_of_app. left.
+      destruct Hd0 as [Hd0 | (Hd0 & _)]; rewrite HD in Hd0; [|congruence].
+      assert (d0 = d) by congruence. subst d0. assumption.
+    + exists a, d. split; [|assumption]. rewrite lookup_insert_ne by congruence. rewrite HD. assumption.
+  - destruct (decide (a = t_to t)) as [->|Hne].
+    + rewrite HD in Hd0. assert (d0 = d) by congruence. subst d0.
+      destruct (unstake_result_no_loss (dels l) (frozen l) (t_to t) d hs s0 (release_height s2) st) as [(d' & Hd' & Hin') | Hfr];
+        [apply Hok; assumption | eapply U1; eassumption | | assumption | assumption | |].
+      * intros x Hx. apply Hpos, elem_of_bonded. eauto.
+      * left. apply elem_of_bonded. exists (t_to t), d'. rewrite HD', HDl. auto.
+      * right. rewrite HF', HFl, <- HR. exact Hfr.
+    + left. apply elem_of_bonded. exists a, d. rewrite HD', HDl, unstake_result_lookup_ne by assumption.
+      rewrite HD. auto.
+  - left. apply elem_of_bonded. exists a, d. rewrite HD', HDl, HD. auto.
+Qed.
+Print Assumptions deliver_never_loses.
+
+(* BeginBlock without evidence: a stake stays bonded or, when its validator is jailed for missed
+   blocks, starts unbonding *)
+Theorem begin_block_never_loses s hd st :
+  hashes_unique (work s) → h_evidence hd = [] → st ∈ bonded_stakes (work s) →
+  st ∈ bonded_stakes (work (begin_block s hd).1) ∨
+  frozen (work (begin_block s hd).1) !! s_hash st
+    = Some (with_refund (h_height hd + g_lazyRewardBlocks (gparams s)) st).
+Proof.
+  intros Hu Hev Hst. apply hashes_unique_pt in Hu.
+  pose (R := h_height hd + g_lazyRewardBlocks (gparams s)).
+  pose (P := λ l, hu_pt l ∧ (st ∈ bonded_stakes l ∨ frozen l !! s_hash st = Some (with_refund R st))).
+  enough (HP : P (work (begin_block s hd).1)) by (exact (proj2 HP)).
+  apply (begin_block_ind P).
+  - intros l l' Hsf [H1 H2]. split; [eapply hu_pt_sf; eassumption|].
+    destruct Hsf as [HD HF]. rewrite HF. destruct H2 as [H2 | H2]; [left | right; assumption].
+    apply elem_of_bonded in H2 as (a & d & Hd & Hin). apply elem_of_bonded. exists a, d. rewrite HD. auto.
+  - split; [assumption | left; assumption].
+  - intros l a d Hin. rewrite Hev in Hin. inversion Hin.
+  - intros l a d m [H1 H2] Hd. split.
+    + eapply hu_pt_evolves; [apply Qok_eq | exact H1 | apply (ev_marks eq 0); [apply Qok_eq | assumption]].
+    + destruct H2 as [H2 | H2]; [left | right; assumption].
+      apply elem_of_bonded in H2 as (a' & d' & Hd' & Hin'). apply elem_of_bonded. rewrite dels_set_dels.
+      destruct (decide (a' = a)) as [->|Hne].
+      * exists a, (with_marks d m). split; [apply lookup_insert|]. simpl. congruence.
+      * exists a', d'. split; [rewrite lookup_insert_ne by congruence; assumption | assumption].
+  - intros l a d _ [H1 H2] Hd. split.
+    + eapply hu_pt_evolves; [apply Qok_eq | exact H1 | apply (ev_jail eq); [apply Qok_eq | assumption]].
+    + destruct H1 as (U1 & U2 & U3 & U4). unfold jail. rewrite frozen_set_dels, frozen_set_frozen.
+      destruct H2 as [H2 | H2].
+      * apply elem_of_bonded in H2 as (a' & d' & Hd' & Hin'). destruct (decide (a' = a)) as [->|Hne].
+        -- right. assert (d' = d) by congruence. subst d'. apply freeze_all_new; [eapply U1; eassumption | assumption].
+        -- left. apply elem_of_bonded. exists a', d'. rewrite dels_set_dels, lookup_delete_ne by congruence. auto.
+      * right. rewrite freeze_all_keep; [assumption|]. intros x Hx. eapply U3; eassumption.
+Qed.
+Print Assumptions begin_block_never_loses.
+
+(* which bonded stakes BeginBlock can take away: those of a delegatee named in the evidence (a stake
+   whose slash would be less than 1 is removed by doSlashAll) or of a validator that missed a block
+   (force release); all others keep a stake with their hash under the same delegatee *)
+Theorem begin_block_release_cases s hd a d st :
+  dels (work s) !! a = Some d → st ∈ d_stakes d →
+  (∃ d' st', dels (work (begin_block s hd).1) !! a = Some d' ∧ st' ∈ d_stakes d' ∧ s_hash st' = s_hash st) ∨
+  a ∈ h_evidence hd ∨ (∃ pw, (a, pw, false) ∈ h_votes hd).
+Proof.
+  intros Hd Hst.
+  pose (P := λ l, (∃ d' st', dels l !! a = Some d' ∧ st' ∈ d_stakes d' ∧ s_hash st' = s_hash st) ∨
+                  a ∈ h_evidence hd ∨ (∃ pw, (a, pw, false) ∈ h_votes hd)).
+  apply (begin_block_ind P).
+  - intros l l' [HD _] [H | H]; [left | right; exact H]. rewrite HD. exact H.
+  - left. eauto.
+  - intros l a0 d0 Hev [(d' & st' & Hd' & Hin' & Hh) | H] Hd0; [|right; exact H].
+    destruct (decide (a0 = a)) as [->|Hne]; [right; left; exact Hev|].
+    left. exists d', st'. rewrite dels_set_dels, lookup_insert_ne by assumption. auto.
+  - intros l a0 d0 m [(d' & st' & Hd' & Hin' & Hh) | H] Hd0; [|right; exact H]. left.
+    destruct (decide (a0 = a)) as [->|Hne].
+    + assert (d0 = d') by congruence. subst d0. exists (with_marks d' m), st'.
+      rewrite dels_set_dels, lookup_insert. auto.
+    + exists d', st'. rewrite dels_set_dels, lookup_insert_ne by assumption. auto.
+  - intros l a0 d0 Hmiss [(d' & st' & Hd' & Hin' & Hh) | H] Hd0; [|right; exact H].
+    destruct (decide (a0 = a)) as [->|Hne]; [right; right; exact Hmiss|].
+    left. exists d', st'. unfold jail. rewrite dels_set_dels, lookup_delete_ne by assumption. auto.
+Qed.
+Print Assumptions begin_block_release_cases.
+
+(* EndBlock and Commit never touch bonded stakes *)
+Lemma end_block_dels s : dels (work (end_block s).1) = dels (work s).
+Proof.
+  destruct (end_block s) as [s' r] eqn:E; simpl.
+  apply end_block_inv in E as [[-> _] | (ups & l3 & _ & [HD _] & _ & _ & Hun & _)]; [reflexivity|].
+  rewrite unfreeze_unfold in Hun. apply unfreeze_list_spec in Hun as (HD' & _). congruence.
+Qed.
+
 (* ================================================================== 11. examples: the hypotheses are satisfiable *)
 Definition ex_genesis : genesis :=
   {| gen_params := ex_params; gen_holders := [(1%N, 1000); (3%N, 5000000000000001000)]; gen_validators := [(1%N, 10)] |}.
@@ -1941,3 +2078,99 @@ Definition ex_b3 : list sop := [SBegin (ex_header 3); SEnd; SCommit].
 Definition ex_delegation : stake :=
   {| s_from := 3%N; s_to := 1%N; s_hash := 201%N; s_start := 2; s_refund := 0; s_power := 2 |}.
 
+Definition ex_s1 : state := srun (init_chain ex_genesis) ex_b1.                           (* after block 1 *)
+Definition ex_s2 : state := srun (init_chain ex_genesis) (ex_b1 ++ [SBegin (ex_header 2)]). (* inside block 2 *)
+Definition ex_s4 : state :=                                                              (* inside block 4 *)
+  srun (init_chain ex_genesis) (ex_b1 ++ ex_b2 ++ ex_b3 ++ [SBegin (ex_header 4)]).
+
+Lemma ex_fresh ops : fresh_runb (init_chain ex_genesis) ops = true →
+  hashes_unique (work (srun (init_chain ex_genesis) ops)).
+Proof. intros H. apply hashes_unique_reachable; [simpl; lia | apply fresh_runb_ok, H]. Qed.
+
+(* (A): a reachable state with a delegation; the query equals the sum *)
+Example ex_dels_ok :
+  dels_ok (work ex_s1) ∧ bonded_stakes (work ex_s1) = [genesis_stake (1%N, 10); ex_delegation] ∧
+  sumZ_with (λ kv : addr * delegatee, d_total kv.2) (map_to_list (dels (work ex_s1))) = 12 ∧
+  (d_self <$> dels (work ex_s1) !! 1%N) = Some 10.
+Proof. split; [apply dels_ok_reachable|]. vm_conj. Qed.
+
+(* (B1)/(B3)/(C1)/(C2): the hypotheses of the theorems hold in block 2, where account 3 releases its stake *)
+Example ex_release :
+  let s := ex_s2 in let s' := (deliver s ex_tx_un).1 in
+  hashes_unique (work s) ∧ fresh_tx s ex_tx_un ∧ dels_ok (work s) ∧
+  (∀ x, x ∈ bonded_stakes (work s) → 0 ≤ s_power x) ∧
+  deliver s ex_tx_un = (s', Ok 10) ∧
+  ex_delegation ∈ bonded_stakes (work s) ∧ ex_delegation ∉ bonded_stakes (work s') ∧
+  frozen (work s') !! 201%N = Some (with_refund 4 ex_delegation) ∧
+  genesis_stake (1%N, 10) ∈ bonded_stakes (work s').
+Proof.
+  cbv zeta.
+  assert (Hb : bonded_stakes (work ex_s2) = [genesis_stake (1%N, 10); ex_delegation]) by (vm_compute; reflexivity).
+  assert (Hb' : bonded_stakes (work (deliver ex_s2 ex_tx_un).1) = [genesis_stake (1%N, 10)]) by (vm_compute; reflexivity).
+  split; [apply ex_fresh; vm_compute; reflexivity|].
+  split; [apply fresh_txb_ok; vm_compute; reflexivity|].
+  split; [apply dels_ok_reachable|].
+  split. { intros x Hx. rewrite Hb in Hx. repeat (apply elem_of_cons in Hx as [-> | Hx]; [simpl; lia|]). inversion Hx. }
+  split; [vm_compute; reflexivity|].
+  split; [rewrite Hb; right; left|].
+  split. { rewrite Hb'. intros Hx. repeat (apply elem_of_cons in Hx as [Hx | Hx]; [discriminate Hx|]). inversion Hx. }
+  split; [vm_compute; reflexivity|].
+  rewrite Hb'. left.
+Qed.
+
+(* slashing: evidence against validator 1 halves every stake bonded to it *)
+Definition ex_header_evidence : header :=
+  {| h_height := 2; h_proposer := Some 1%N; h_votes := []; h_evidence := [1%N] |}.
+Example ex_slash :
+  hashes_unique (work ex_s1) ∧ 0 ≤ g_slashRatio (gparams ex_s1) ≤ 100 ∧
+  ex_delegation ∈ bonded_stakes (work ex_s1) ∧
+  bonded_stakes (work (begin_block ex_s1 ex_header_evidence).1)
+    = [with_power 5 (genesis_stake (1%N, 10)); with_power 1 ex_delegation].
+Proof.
+  split; [apply ex_fresh; vm_compute; reflexivity|].
+  split; [vm_compute; split; discriminate|].
+  assert (Hb : bonded_stakes (work ex_s1) = [genesis_stake (1%N, 10); ex_delegation]) by (vm_compute; reflexivity).
+  split; [rewrite Hb; right; left | vm_compute; reflexivity].
+Qed.
+
+(* force release: with a window of 10 and 10 required signatures one missed block jails the validator;
+   every stake bonded to it, the delegator's included, starts unbonding with refund height 2 + 2 *)
+Definition ex_params_strict : params := {|
+  g_version := 1; g_maxValidatorCnt := 10; g_minValidatorStake := 1000000000000000000; g_minDelegatorStake := 0;
+  g_rewardPerPower := 1; g_lazyRewardBlocks := 2; g_lazyApplyingBlocks := 1; g_gasPrice := 1;
+  g_minTrxGas := 10; g_maxTrxGas := 1000; g_maxBlockGas := 100000; g_minVotingPeriodBlocks := 1;
+  g_maxVotingPeriodBlocks := 100; g_minSelfStakeRatio := 50; g_maxUpdatableStakeRatio := 30;
+  g_maxIndividualStakeRatio := 100; g_slashRatio := 50; g_signedBlocksWindow := 10; g_minSignedBlocks := 10 |}.
+Definition ex_genesis_strict : genesis :=
+  {| gen_params := ex_params_strict; gen_holders := gen_holders ex_genesis; gen_validators := gen_validators ex_genesis |}.
+Definition ex_header_missed : header :=
+  {| h_height := 2; h_proposer := Some 1%N; h_votes := [(1%N, 12, false)]; h_evidence := [] |}.
+Example ex_jail :
+  let s := srun (init_chain ex_genesis_strict) ex_b1 in let s' := (begin_block s ex_header_missed).1 in
+  (begin_block s ex_header_missed).2 = Ok 0 ∧
+  bonded_stakes (work s) = [genesis_stake (1%N, 10); ex_delegation] ∧ bonded_stakes (work s') = [] ∧
+  frozen (work s') !! 201%N = Some (with_refund 4 ex_delegation) ∧
+  frozen (work s') !! 0%N = Some (with_refund 4 (genesis_stake (1%N, 10))).
+Proof. cbv zeta. vm_conj. Qed.
+
+(* (C3): block 4 is the refund height of the released stake; account 3 gets 2 x 10^18 back *)
+Example ex_refund :
+  let s := ex_s4 in let s' := (end_block s).1 in
+  end_block s = (s', Ok []) ∧
+  frozen (base_of s) !! 201%N = Some (with_refund 4 ex_delegation) ∧ b_height (bctx s) = 4 ∧
+  0 ≤ a_bal (fee_credited s 3%N) < two256 ∧
+  refund_total (base_of s) 4 3%N = 2 * amountPerPower ∧
+  bal_of (work s') 3%N = bal_of (work s) 3%N + 2 * amountPerPower ∧
+  frozen_stakes (work s') = [] ∧ bal_of (work s') 1%N = bal_of (work s) 1%N.
+Proof.
+  cbv zeta. split; [vm_compute; reflexivity|]. split; [vm_compute; reflexivity|]. split; [vm_compute; reflexivity|].
+  split. { Local Transparent two256. vm_compute. split; [discriminate | reflexivity]. Local Opaque two256. }
+  split; [vm_compute; reflexivity|]. split; [vm_compute; reflexivity|]. split; vm_compute; reflexivity.
+Qed.
+
+(* one block earlier nothing is paid: never earlier *)
+Example ex_not_earlier :
+  let s := srun (init_chain ex_genesis) (ex_b1 ++ ex_b2 ++ [SBegin (ex_header 3)]) in
+  (end_block s).2 = Ok [(1%N, 10)] ∧ bal_of (work (end_block s).1) 3%N = bal_of (work s) 3%N ∧
+  frozen (work (end_block s).1) !! 201%N = Some (with_refund 4 ex_delegation).
+Proof. cbv zeta. vm_conj. Qed.
